@@ -99,6 +99,8 @@ def call(side, t, ops):
     for k in ("axis", "keepdims", "ddof", "dtype", "ord"):
         if k in opts:
             v = opts[k]
+            if k == "ord" and v in ("inf", "-inf"):
+                v = np.inf if v == "inf" else -np.inf
             kw[k] = tuple(v) if isinstance(v, list) else v
     extra = t.get("args", [])
     extra = [tuple(e) if isinstance(e, list) else e for e in extra]
